@@ -507,6 +507,19 @@ Theorem C07_parse_initial_states_rejects_unknown_values :
 Proof. exact parse_rejects_unknown_values. Qed.
 Print Assumptions C07_parse_initial_states_rejects_unknown_values.
 
+(* ... and on arguments of any Python type (the type tests raise TypeError, in source order before
+   the value tests of the same argument): accepted exactly when every argument has the right type
+   and the value tests pass *)
+Theorem C07_sa_outcome_accept_iff :
+  forall num_reads beta_range num_sweeps,
+    sa_outcome num_reads beta_range num_sweeps = Accept <->
+    exists r s, num_reads = AInt r /\ num_sweeps = AInt s /\
+      (beta_range <> BNotSeq) /\
+      (forall items, beta_range = BSeq items -> forallb bitem_is_num items = true) /\
+      sa_validate r (match beta_range with BSeq items => Some (map bitem_q items) | _ => None end) s = true.
+Proof. exact sa_outcome_accept_iff. Qed.
+Print Assumptions C07_sa_outcome_accept_iff.
+
 Theorem C07_check_parse_sound :
   forall g num_reads (e : sample -> Qc) spin vars init seen r,
     check_parse g num_reads e spin vars init seen = true -> seen = Some r ->
